@@ -196,7 +196,17 @@ let to_creq (e : sexp) : M.creq =
   | L [A "eq"; ac; u; d; ar; ai; br; bi; bn] -> M.CEqual (to_bool ac, to_cexprs u, to_zlist d, to_z ar, to_z ai, to_z br, to_z bi, to_z bn)
   | _ -> failwith "bad complex request"
 
-(* <id> <f32|f64|q|z|text|ty|c32|c64> <std|core|-> <request> *)
+let to_ratio = function L [n; d] -> (to_z n, to_z d) | _ -> failwith "expected (n d)"
+let to_ratios = function L l -> List.map to_ratio l | A _ -> failwith "expected list of (n d)"
+let to_wreq (e : sexp) : M.wreq =
+  match e with
+  | L [A "new"; lo; hi; i; u; d; k; c; v] -> M.WNew (to_z lo, to_z hi, to_bool i, to_ratios u, to_zlist d, to_ratio k, to_ratio c, to_ratio v)
+  | L [A "get"; lo; hi; i; u; d; k; c; v] -> M.WGet (to_z lo, to_z hi, to_bool i, to_ratios u, to_zlist d, to_ratio k, to_ratio c, to_ratio v)
+  | L [A "rebase"; lo; hi; i; ul; ur; d; v] -> M.WRebase (to_z lo, to_z hi, to_bool i, to_ratios ul, to_ratios ur, to_zlist d, to_ratio v)
+  | L [A "prim"; lo; hi; op; x; y] -> M.WPrim (to_z lo, to_z hi, to_z op, to_ratio x, to_ratio y)
+  | _ -> failwith "bad fixed-width request"
+
+(* <id> <f32|f64|q|z|w|text|ty|c32|c64> <std|core|-> <request> *)
 let run (st : string) (lib : sexp) (r : sexp) : string =
   match st with
   | "f64" -> String.concat " " (List.map string_of_z (M.run64 (to_lib lib) (to_req to_z r)))
@@ -205,6 +215,7 @@ let run (st : string) (lib : sexp) (r : sexp) : string =
   | "a32" -> String.concat " " (List.map string_of_z (M.acc_run32 (to_lib lib) (to_req to_z r)))
   | "q" -> String.concat " " (List.map string_of_q (M.q_run (to_req to_q r)))
   | "z" -> String.concat " " (List.map string_of_z (M.z_run (to_req to_z r)))
+  | "w" -> String.concat " " (List.map string_of_z (M.w_run (to_wreq r)))
   | "text" -> String.concat " " (List.map string_of_z (M.text_run (to_treq r)))
   | "ty" -> String.concat " " (List.map string_of_z (M.typing_run (to_tyreq r)))
   | "c64" -> String.concat " " (List.map string_of_z (M.crun64 (to_lib lib) (to_creq r)))
